@@ -318,7 +318,10 @@ func FilterPMTPacketsToPids(packets []*packet.Packet, pids []int) ([]*packet.Pac
 	pmtPayload := pmtByteBuffer.Bytes()
 
 	// Determine if any of the given PIDs aren't in the PMT.
-	unfilteredPMT, _ := NewPMT(pmtPayload)
+	unfilteredPMT, err := NewPMT(pmtPayload)
+	if err != nil {
+		return nil, err
+	}
 
 	pmtPid := packet.Pid(packets[0])
 	var missingPids []int
@@ -341,7 +344,14 @@ func FilterPMTPacketsToPids(packets []*packet.Packet, pids []int) ([]*packet.Pac
 	}
 
 	// include +1 to account for the PointerField field itself
-	pointerField := PointerField(pmtPayload) + 1
+	pointerField := int(PointerField(pmtPayload)) + 1
+	// the first section must be a complete program map section, long enough for its fixed part and CRC
+	if len(pmtPayload) < pointerField+programInfoLengthOffset+2 {
+		return nil, gots.ErrPMTParse
+	}
+	if sl := int(sectionLength(pmtPayload[pointerField:])); sl < programInfoLengthOffset-1+int(CrcLen) || len(pmtPayload) < pointerField+3+sl {
+		return nil, gots.ErrPMTParse
+	}
 
 	var filteredPMT bytes.Buffer
 
@@ -356,6 +366,11 @@ func FilterPMTPacketsToPids(packets []*packet.Packet, pids []int) ([]*packet.Pac
 
 	// Get program info length
 	programInfoLength := uint16(pmtPayload[programInfoLengthOffset]&0x0f)<<8 | uint16(pmtPayload[programInfoLengthOffset+1])
+	// first byte of the CRC, relative to the start of the section
+	crcStart := 3 + sectionLength - CrcLen
+	if programInfoLengthOffset+2+programInfoLength > crcStart {
+		return nil, gots.ErrPMTParse
+	}
 	if programInfoLength != 0 {
 		filteredPMT.Write(pmtPayload[programInfoLengthOffset+2 : programInfoLengthOffset+2+programInfoLength])
 	}
@@ -363,6 +378,9 @@ func FilterPMTPacketsToPids(packets []*packet.Packet, pids []int) ([]*packet.Pac
 	for offset := programInfoLengthOffset + 2 + programInfoLength; offset < PSIHeaderLen+sectionLength-pmtEsDescriptorStaticLen-CrcLen; {
 		elementaryPid := int(pmtPayload[offset+1]&0x1f)<<8 | int(pmtPayload[offset+2])
 		infoLength := uint16(pmtPayload[offset+3]&0x0f)<<8 | uint16(pmtPayload[offset+4])
+		if offset+pmtEsDescriptorStaticLen+infoLength > crcStart {
+			return nil, gots.ErrPMTParse // the stream entry runs into the CRC
+		}
 
 		// This is an ES PID we want to keep
 		if pidIn(pids, elementaryPid) {
@@ -378,7 +396,7 @@ func FilterPMTPacketsToPids(packets []*packet.Packet, pids []int) ([]*packet.Pac
 	// This will be the length of our buffer - (Bytes preceding section_length) + CRC
 	// Bytes preceding = 4 + PointerField value and the CRC = 4, so it turns out to be the length of the buffer - PointerField field
 	// -1 because we previously added 1 for the pointerfield field itself
-	newSectionLength := uint16(len(fPMT)) - uint16(pointerField-1)
+	newSectionLength := uint16(len(fPMT) - (pointerField - 1))
 	sectionLengthBytes := make([]byte, 2)
 	binary.BigEndian.PutUint16(sectionLengthBytes, newSectionLength)
 	fPMT[pointerField+1] = (fPMT[pointerField+1] & 0xf0) | sectionLengthBytes[0]
